@@ -74,13 +74,47 @@ pub fn check_relative(p: &str, b: &str) -> CaseResult {
     Ok(())
 }
 
+/// component names that are not valid UTF-8 (unix names are byte strings): same laws, compared on bytes
+pub fn check_relative_bytes(pc: &[Vec<u8>], bc: &[Vec<u8>]) -> CaseResult {
+    use std::os::unix::ffi::{OsStrExt, OsStringExt};
+    let mk = |cs: &[Vec<u8>]| -> std::path::PathBuf {
+        let mut b = vec![b'/'];
+        for (i, c) in cs.iter().enumerate() {
+            if i > 0 {
+                b.push(b'/');
+            }
+            b.extend_from_slice(c);
+        }
+        std::path::PathBuf::from(std::ffi::OsString::from_vec(b))
+    };
+    let (p, b) = (mk(pc), mk(bc));
+    let show = format!("relative({:?},{:?})", p, b);
+    let r = match catch(|| sys::relative(&p, &b)) {
+        Ok(Ok(r)) => r,
+        Ok(Err(e)) => return Err(Failure::new("relative|err|non-utf8-names", format!("{} = Err({})", show, e))),
+        Err(m) => return Err(Failure::new(format!("relative|panic|{}|non-utf8-names", panic_site(&m)), format!("{} panicked: {}", show, m))),
+    };
+    let back = sys::clean(b.join(&r));
+    if back.as_os_str().as_bytes() != p.as_os_str().as_bytes() {
+        return Err(Failure::new("relative|join-mismatch|non-utf8-names", format!("{} = {:?}; clean(base/result) = {:?}", show, r, back)));
+    }
+    if pc != bc {
+        let common = pc.iter().zip(bc.iter()).take_while(|(x, y)| x == y).count();
+        let dd = r.components().take_while(|c| matches!(c, std::path::Component::ParentDir)).count();
+        if dd != bc.len() - common || r.is_absolute() {
+            return Err(Failure::new("relative|dotdot-count|non-utf8-names", format!("{} = {:?}: {} '..' expected {}", show, r, dd, bc.len() - common)));
+        }
+    }
+    Ok(())
+}
+
 fn deep_path() -> impl Strategy<Value = String> {
     prop::collection::vec(prop::sample::select(&["a", "b", "ab", "a.b", "é", "éé", "日本", "d e", "..z", "😀", "~", "n~", "$HOME", "${HOME}", "$", "A", "B", "Ab"][..]), 0..=12)
         .prop_map(|v| if v.is_empty() { "/".to_string() } else { format!("/{}", v.join("/")) })
 }
 
 pub fn run(c: &Ctx) {
-    c.set_rule("exhaustive: all ordered pairs of the 121 clean absolute paths with <=4 components over {a,ab,b} (one name is a string prefix of another) and of the 40 with <=3 components over {~,$HOME,n~} (names are opaque to relative()), of the 40 over {a,A,b} (case matters) and of the 15 over {a,b} below a real tmpfs directory where a is a symlink to b/b (the function is lexical: what exists on disk is irrelevant); then seeded random pairs up to depth 12 over 18 names (multi-byte, spaces, dots, '~' and '$') with a shared random prefix in half of them. Oracle: result relative, (../)*normal*, clean(base/result)==path, #'..' == |base|-|common prefix|. Non-trivial = path!=base and the common prefix is shorter than both (needs '..' and normal parts); distinct by pair.");
+    c.set_rule("exhaustive: all ordered pairs of the 121 clean absolute paths with <=4 components over {a,ab,b} (one name is a string prefix of another) and of the 40 with <=3 components over {~,$HOME,n~} (names are opaque to relative()), of the 40 over {a,A,b} (case matters), of the 85 over {a, 0xFF, 0xE9 'a', b} (names that are not valid UTF-8, compared on bytes) and of the 15 over {a,b} below a real tmpfs directory where a is a symlink to b/b (the function is lexical: what exists on disk is irrelevant); then seeded random pairs up to depth 12 over 18 names (multi-byte, spaces, dots, '~' and '$') with a shared random prefix in half of them. Oracle: result relative, (../)*normal*, clean(base/result)==path, #'..' == |base|-|common prefix|. Non-trivial = path!=base and the common prefix is shorter than both (needs '..' and normal parts); distinct by pair.");
     let paths = all_paths(&["a", "ab", "b"], 4);
     let n = paths.len() as u64;
     par_for(n * n, 512, |i| {
@@ -123,6 +157,33 @@ pub fn run(c: &Ctx) {
         }
         c.class("exhaustive:case-variant-names");
         c.judge("relative", &json!({"path":p,"base":b}), check_relative(p, b));
+    });
+    // names that are not valid UTF-8
+    let bnames: Vec<Vec<u8>> = vec![b"a".to_vec(), vec![0xff], vec![0xe9, b'a'], b"b".to_vec()];
+    let mut bpaths: Vec<Vec<Vec<u8>>> = vec![vec![]];
+    let mut frontier: Vec<Vec<Vec<u8>>> = vec![vec![]];
+    for _ in 0..3 {
+        let mut next = vec![];
+        for f in &frontier {
+            for n in &bnames {
+                let mut p = f.clone();
+                p.push(n.clone());
+                bpaths.push(p.clone());
+                next.push(p);
+            }
+        }
+        frontier = next;
+    }
+    let nb = bpaths.len() as u64;
+    par_for(nb * nb, 512, |i| {
+        let (p, b) = (&bpaths[(i / nb) as usize], &bpaths[(i % nb) as usize]);
+        c.eval(1);
+        c.class("exhaustive:non-utf8-names");
+        let cm = p.iter().zip(b.iter()).take_while(|(x, y)| x == y).count();
+        if p != b && cm > 0 && cm < p.len() && cm < b.len() && p.iter().take(cm).any(|x| x.iter().any(|y| *y >= 0x80)) {
+            c.nontrivial(fp(&(p, b)));
+        }
+        c.judge("relative-bytes", &json!({"path": p, "base": b}), check_relative_bytes(p, b));
     });
     // purely lexical: the answer does not depend on what exists on disk. Paths below a real directory in
     // which `a` is a symlink to the directory b/b and b/b/a exists
@@ -180,6 +241,11 @@ pub fn run(c: &Ctx) {
 
 pub fn replay(kind: &str, case: &Value) -> Option<CaseResult> {
     match kind {
+        "relative-bytes" => {
+            let p: Vec<Vec<u8>> = serde_json::from_value(case["path"].clone()).ok()?;
+            let b: Vec<Vec<u8>> = serde_json::from_value(case["base"].clone()).ok()?;
+            Some(check_relative_bytes(&p, &b))
+        },
         "relative-on-disk" => {
             let sb = crate::sandbox::dir("c16");
             let sbs = sb.to_str().unwrap().to_string();
